@@ -34,13 +34,13 @@ Definition C15_full : Prop :=
    (accepted / rejected at the same row for the same reason) unchanged; share
    balances and ratio terms scale.  f > 0; no whole-number-only reverse
    splits in the history (their fraction test is deliberately not scale-free). *)
-Theorem C15_whole_history_restated : forall f init txs,
-  (0 < f)%Qc -> Forall no_int_only txs ->
+Theorem C15_whole_history_restated : forall f, (0 < f)%Qc -> forall init txs,
+  Forall no_int_only txs ->
   run exact (option_map (sc_status f) init) (map (scale_tx f) txs)
   = let '(ds, o) := run exact init txs in (map (sc_delta f) ds, o).
 Proof. exact C15Run.run_sc. Qed.
-Check C15_whole_history_restated : forall f init txs,
-  (0 < f)%Qc -> Forall no_int_only txs ->
+Check C15_whole_history_restated : forall f, (0 < f)%Qc -> forall init txs,
+  Forall no_int_only txs ->
   run exact (option_map (sc_status f) init) (map (scale_tx f) txs)
   = let '(ds, o) := run exact init txs in (map (sc_delta f) ds, o).
 Print Assumptions C15_whole_history_restated.
